@@ -350,7 +350,7 @@ func funcsForProperty(cs *Contracts, prop string) []string {
 					use = true
 				}
 			}
-			for _, e := range l.Iters {
+			for _, e := range append(append([]*Clause{}, l.Iters...), l.Exits...) {
 				if hasTag(e.Tags, prop) {
 					use = true
 				}
